@@ -5,6 +5,23 @@ NOTES = ("Every check regenerates its encoding from /repo's working tree on each
          "exit 1 = reproduced violation (VIOLATION line); exit 2 = the harness cannot vouch for itself.")
 NOT_APPLICABLE = {}
 CHECKS = {
+ "C01": dict(engine="E1-zshadow+primenv", category="other", design_ref="DESIGN.md §11.7 C01",
+   technique="symbolic execution of the real hash()/identify()/verify() of every registered hasher with cryptographic primitives as uninterpreted functions plus ground no-collision facts; z3 per path",
+   text="For passwords of a few symbolic bytes (and text passwords per UTF-8 width pattern) the real hash() runs, then the real "
+        "identify()/verify() on the string it returned, with the same and with a second symbolic password. z3 shows on every path "
+        "that the string is ASCII text the hasher identifies, verifies its own password in text and bytes form, and that a "
+        "second password can only verify when it equals the first up to the format's documented equivalence.",
+   note="Trusted: z3; the idealisation of every primitive (digests, HMAC, PBKDF, DES, bcrypt, scrypt) as a collision-free "
+        "uninterpreted function - collision resistance is assumed, the library's own glue is what is decided; the C07/C08 text "
+        "environment. Outside: mysql323, sun_md5_crypt, argon2 (reasons in the evidence), longer passwords, NUL bytes (C05)."),
+ "C03": dict(engine="E1-zshadow", category="other", design_ref="DESIGN.md §11.7 C03",
+   technique="symbolic execution of safe_crypt and every os_crypt wrapper against an arbitrary crypt() answer; inductive step over backend states (z3)",
+   text="crypt() is replaced by a stub that may answer anything: for all password bytes and every answer (none, correct shape "
+        "with any digest text, any code point at any position of the echoed configuration) z3 shows the wrapper returns "
+        "crypt()'s digest for the requested configuration, the builtin result, or refuses. set_backend/has_backend/"
+        "get_backend are checked as one step from every valid backend state of unrelated and derived hashers.",
+   note="Trusted: z3; scratch hashers with fake backends for the switching step. The real backends of this host are compared on "
+        "a finite battery only (stated as enumeration). Outside: digests vs standards (C02/C11), argon2."),
  "C06": dict(engine="E1-zshadow", category="other", design_ref="DESIGN.md §4 C06",
    technique="symbolic execution of the real generators (z3): bijection / clipping validity queries over all rng outputs",
    text="Bounded symbolic check: for every size/alphabet in the stated list the solver shows, for all outputs of the random "
